@@ -75,6 +75,13 @@ Theorem C06_translated_AllChildrenStopped c fuel d s :
   exists b, answers (gen_AllChildrenStopped c fuel d) s b /\ lsc_eval LAllChildrenStopped d (demes (ms s)) = Some b.
 Proof. exact (AllChildrenStopped_ok c fuel d s). Qed.
 Print Assumptions C06_translated_AllChildrenStopped.
+(* FitnessSteadiness(max_deviation, n): the early return translated from lsc.py is the part of its verdict the machine computes (false while the deme has
+   run fewer than n metaepochs); the float-valued rest is an oracle of the machine, recomputed exactly by the monitor on recorded runs *)
+Theorem C06_translated_FitnessSteadiness_early c fuel n d s :
+  exists b, answers (gen_FitnessSteadiness_early c fuel n d) s b /\
+            lsc_eval (LSteadiness n) d (demes (ms s)) = (if b then None else Some false).
+Proof. exact (FitnessSteadiness_early_ok c fuel n d s). Qed.
+Print Assumptions C06_translated_FitnessSteadiness_early.
 Theorem C06_translated_DontStop c fuel d s : exists b, answers (gen_DontStop_deme c fuel d) s b /\ lsc_eval LDontStop d (demes (ms s)) = Some b.
 Proof. exact (DontStop_deme_ok c fuel d s). Qed.
 Print Assumptions C06_translated_DontStop.
